@@ -11,7 +11,7 @@ import streamgen
 LEVEL = "exploration"
 H = os.path.join(vlib.HARNESS, "root")
 FILES = [os.path.join(H, f) for f in ("common_test.go", "abaco_test.go", "lancero_test.go", "lifecycle_test.go", "requests_test.go",
-                                      "pipeline_test.go", "stream_test.go", "wc_test.go")]
+                                      "pipeline_test.go", "stream_test.go", "wc_test.go", "status_test.go")]
 
 
 def parse_races(out):
@@ -70,7 +70,8 @@ def run(ctx):
              ("lancero", "TestVerifLancero$", {"VERIF_SCEN": sp2, "VERIF_NRANDOM": 10 if q else 150}),
              ("requests", "TestVerifRequests$", {}),
              ("stream", "TestVerifStream$", {"VERIF_SCEN": sp3}),
-             ("writing", "TestVerifWC$", {"VERIF_NRANDOM": 15 if q else 200})]
+             ("writing", "TestVerifWC$", {"VERIF_NRANDOM": 15 if q else 200}),
+             ("status", "TestVerifStatusThread$", {"VERIF_REAL_CLIENTUPDATER": 1})]
     events = []
     total = 0
     for name, run_, env in loads:
